@@ -38,6 +38,19 @@ def main():
         print(f'no check for {prop}: {e}', file=sys.stderr)
         sys.exit(2)
     run = core.Run(prop, a.tier, seed, level=getattr(mod, 'LEVEL', 'model_checking'))
+    # watchdog: a check that does not come back (code under test that loops inside a worker) ends as a machinery failure, not as a hang
+    limit = int(os.environ.get('VERIF_CHECK_LIMIT_S', '5400' if a.tier == 'quick' else '28800'))
+    main_pid = os.getpid()
+
+    def _watchdog():
+        import time
+        time.sleep(limit)
+        print(f'MACHINERY-FAILURE {prop}: the check did not finish within {limit} s', file=sys.stderr, flush=True)
+        import subprocess
+        subprocess.run(['pkill', '-KILL', '-P', str(main_pid)])
+        os._exit(2)
+    import threading
+    threading.Thread(target=_watchdog, daemon=True).start()
     try:
         if a.replay:
             case = json.load(open(a.replay))
